@@ -56,6 +56,7 @@ def required_counters(tier):
         "checker.tuple_spelling": 5,
         "pytest_option_runs": 1,
         "histories.hook_api_with_warnings_as_errors": 10,
+        "histories.same_hook_installed_twice": 10,
         "ipython_magic_runs": 1,
     }
 
@@ -184,6 +185,16 @@ def gen_history(rng, mods):
         # a with-block: install, import, leave, import again
         ops.append({"op": "with", "names": [rng.choice(hookable)], "checker": rng.choice(("spychk.A", "spychk.B")), "inside": [rng.choice(names)], "h": handles, "leave_by_exception": rng.random() < 0.5})
         ops.append({"op": "import", "module": rng.choice(names)})
+    if rng.random() < 0.35:
+        # the SAME hook (same names, same typechecker) installed twice - a nested with-block, or the pytest option
+        # plus the package's own __init__ - the second one removed again, and only then a module beneath it imported
+        first = next(o for o in ops if o["op"] == "install")
+        fn = [first["names"]] if isinstance(first["names"], str) else list(first["names"])
+        beneath = [m for m in names if any(m == h or m.startswith(h + ".") for h in fn)]
+        if beneath:
+            i = ops.index(first) + 1
+            dup = {"op": "install", "h": handles + 1, "names": first["names"], "checker": first["checker"]}
+            ops[i:i] = [dup, {"op": "uninstall", "h": handles + 1}, {"op": "import", "module": rng.choice(beneath)}]
     for m in rng.sample(names, min(2, len(names))):
         ops.append({"op": "import", "module": m})
     return ops
@@ -334,6 +345,9 @@ def run_history(rec, rng, key):
         out = run_child(root, ops, warnings_as_errors=strict)
         case = {"rngkey": key, "forest": {m: v for m, v in mods.items()}, "ops": ops, "plain_pyc_present": precompiled, "hook_api_called_with_warnings_as_errors": strict, "api_warnings": out.get("api_warnings")}
         rec.count("histories")
+        inst = [(json.dumps(o["names"]), json.dumps(o["checker"])) for o in ops if o["op"] == "install"]
+        if len(inst) != len(set(inst)):
+            rec.count("histories.same_hook_installed_twice")
         if strict:
             rec.count("histories.hook_api_with_warnings_as_errors")
         if any(isinstance(o.get("checker"), list) for o in ops):
